@@ -99,7 +99,7 @@ func enter(c inCtx, kind, tag, arg string) (*Env, *Op) {
 	if e == nil {
 		return nil, nil
 	}
-	simrt.Yield() // handler entry is a sim point
+	simrt.YieldQuiet() // handler entry is a sim point
 	ev := HandlerEvent{Peer: e.Obs.PeerName(c.Peer()), Sess: SessKey(c.Session()), SessID: c.Session().ID(), Seq: c.Seq(), Kind: kind,
 		Method: c.ServiceMethod(), Arg: arg, Meta: metaString(c.VisitMeta)}
 	e.Obs.RecordHandler(ev)
@@ -111,8 +111,8 @@ func enter(c inCtx, kind, tag, arg string) (*Env, *Op) {
 		e.Fail("handler-input-not-sent", "%s handler on %s seq=%d got an argument nobody sent: %q", kind, ev.Sess, ev.Seq, arg)
 		return e, nil
 	}
-	if op.HYield > 0 {
-		simrt.YieldN(op.HYield)
+	for i := 0; i < op.HYield; i++ {
+		simrt.YieldQuiet()
 	}
 	if op.HSleep > 0 {
 		simrt.Sleep(op.HSleep)
@@ -124,7 +124,7 @@ func leave(e *Env, c inCtx, kind string) {
 	if e == nil {
 		return
 	}
-	simrt.Yield()
+	simrt.YieldQuiet()
 	e.Obs.RecordHandler(HandlerEvent{Peer: e.Obs.PeerName(c.Peer()), Sess: SessKey(c.Session()), Seq: c.Seq(), Kind: kind, Method: c.ServiceMethod(), Exit: true})
 }
 
